@@ -366,6 +366,42 @@ theorem archive_restore_incremental (c : Cfg) (s : Str) (hs : StrOK s) (j : Ser)
     · exact hreadNew (BT.data, ch) (List.mem_append_right _ (List.mem_map.mpr
         ⟨ch, List.mem_filter.mpr ⟨hc, by simpa using hh⟩, rfl⟩))
 
+open Rustic.Store Rustic.Snapshot Rustic.Tree in
+/-- (11) **Restore does not depend on how the repository stores the blobs.**  ANY repository satisfying `RepoOK` — any key,
+compression setting, pack sizes, distribution of blobs over packs, duplicates, any split into index files, any index the
+loader builds — that holds the tree blobs and chunks of the snapshot of `src` (each as the plaintext of some add of a pack
+of the right type) restores the snapshot's root id to exactly `src`.  (This is the second half of the copy clause of C12:
+`copy_restores_same` shows the destination holds every reachable blob; here that suffices, whatever key / compression /
+pack size the destination uses.) -/
+theorem restore_from_any_repository (c : Cfg) (s : Str) (hs : StrOK s) (j : Ser) (chunks : RoundTrip.Bytes → List RoundTrip.Bytes)
+    (hch : ∀ d, (chunks d).flatten = d) (src : List STree) (hwf : WFL src)
+    (packs : List BuiltPack) (files : List Rustic.Index.IndexFile) (hok : RepoOK c packs (Rustic.Index.unmarked files))
+    (idx : Rustic.Index.Index) (hl : Rustic.Props.C17.Loaded .full files idx)
+    (hroot : ∃ q ∈ packs, q.tpe = .tree ∧ ∃ x ∈ q.adds,
+      x.data = treeBytes s j (saveL (fun nodes => c.hash (treeBytes s j nodes)) c.hash chunks noTree src).nodes)
+    (htrees : ∀ p ∈ (saveL (fun nodes => c.hash (treeBytes s j nodes)) c.hash chunks noTree src).trees,
+      ∃ q ∈ packs, q.tpe = .tree ∧ ∃ x ∈ q.adds, x.data = treeBytes s j p.2)
+    (hdata : ∀ ch ∈ (saveL (fun nodes => c.hash (treeBytes s j nodes)) c.hash chunks noTree src).chunks,
+      ∃ q ∈ packs, q.tpe = .data ∧ ∃ x ∈ q.adds, x.data = ch)
+    (order : List Write → List Write) (ho : ∀ l w, w ∈ order l ↔ w ∈ l) :
+    restoreTrees s j (readBlob c idx (backendGet c packs) .tree) (readBlob c idx (backendGet c packs) .data) order
+      (depthL src + 1) (c.hash (treeBytes s j (saveL (fun nodes => c.hash (treeBytes s j nodes)) c.hash chunks noTree src).nodes))
+      = some src := by
+  have hread : ∀ (t : Rustic.Pack.BlobType) (y : RoundTrip.Bytes), (∃ q ∈ packs, q.tpe = t ∧ ∃ x ∈ q.adds, x.data = y) →
+      readBlob c idx (backendGet c packs) t (c.hash y) = some y := by
+    rintro t y ⟨q, hq, hty, x, hx, rfl⟩
+    rw [← hty]
+    exact blob_read_back c packs files hok idx hl q hq x hx
+  refine restore_of_saved s hs j (fun nodes => c.hash (treeBytes s j nodes)) c.hash chunks hch
+    (readBlob c idx (backendGet c packs) .tree) (readBlob c idx (backendGet c packs) .data) order ho src hwf ?_ ?_ ?_
+  · exact hread .tree _ hroot
+  · intro p hp
+    have hid := saveL_trees_id (fun nodes => c.hash (treeBytes s j nodes)) c.hash chunks noTree src p hp
+    rw [hid]
+    exact hread .tree _ (htrees p hp)
+  · intro ch hc
+    exact hread .data ch (hdata ch hc)
+
 /-! non-vacuity -/
 
 example : EncAscii (fun c => if c.toNat < 128 then [UInt8.ofNat c.toNat] else [0xc3, 0xa9]) :=
